@@ -50,11 +50,14 @@ impl Rng {
     pub fn partition(&mut self, len: usize) -> Vec<usize> {
         let mut out = Vec::new();
         let mut left = len;
-        let style = self.below(4);
+        let style = self.below(5);
+        const EDGE: [usize; 15] = [39, 40, 41, 255, 256, 257, 511, 512, 513, 1023, 1024, 1025, 4095, 4096, 4097];
         while left > 0 {
             if self.chance(1, 8) { out.push(0); }
             let max = match style { 0 => 3, 1 => 64, 2 => 7, _ => left.max(1) as u64 };
-            let n = (self.range(1, max.max(1)) as usize).min(left);
+            // style 4: call sizes at the boundaries where 8-bit casts, key wraps and page buffers bite
+            let n = if style == 4 { *self.pick(&EDGE) } else { self.range(1, max.max(1)) as usize };
+            let n = n.min(left);
             out.push(n);
             left -= n;
         }
